@@ -15,9 +15,20 @@ impl<T: Eq + Hash + Debug> ReferenceCounter<T> {
         *counts.entry(t).or_insert(0) += 1;
     }
 
-    pub fn dec(&self, t: T) -> bool {
+    /// Take a reference to `t` and run `f` while no reference to anything can be dropped.  A file
+    /// that is linked into place by `f` cannot lose its last reference (and be moved away by
+    /// [ReferenceCounter::dec_then]) between the link and the reference.
+    pub fn inc_then<R>(&self, t: T, f: impl FnOnce() -> R) -> R {
         let mut counts = self.counts.lock().unwrap();
-        match counts.entry(t) {
+        *counts.entry(t).or_insert(0) += 1;
+        f()
+    }
+
+    /// Drop a reference to `t`; when it was the last one, run `f` before any new reference to
+    /// anything can be taken.
+    pub fn dec_then(&self, t: T, f: impl FnOnce()) {
+        let mut counts = self.counts.lock().unwrap();
+        let last = match counts.entry(t) {
             Entry::Occupied(mut entry) => {
                 if *entry.get() <= 1 {
                     entry.remove();
@@ -28,6 +39,9 @@ impl<T: Eq + Hash + Debug> ReferenceCounter<T> {
                 }
             }
             Entry::Vacant(_) => false,
+        };
+        if last {
+            f();
         }
     }
 }
